@@ -20,13 +20,14 @@ const P = "C03"
 
 // Op is one generated operation.
 type Op struct {
-	K     string `json:"k"`               // wait update spurious peek cancel
-	Ge    int    `json:"ge,omitempty"`    // wait: predicate state >= Ge
-	ErrAt int    `json:"errat,omitempty"` // wait: predicate returns an error when state == ErrAt (0 = never)
-	Via   string `json:"via,omitempty"`   // update: hold | try | async
-	Peek  string `json:"peek,omitempty"`  // update: "" | before | after (take a wait channel inside the same section)
-	Pre   bool   `json:"pre,omitempty"`   // wait: context already cancelled
-	Pick  int    `json:"pick,omitempty"`
+	K       string `json:"k"`                 // wait update spurious peek cancel
+	Ge      int    `json:"ge,omitempty"`      // wait: predicate state >= Ge
+	ErrAt   int    `json:"errat,omitempty"`   // wait: predicate returns an error when state == ErrAt (0 = never)
+	ErrDone bool   `json:"errdone,omitempty"` // wait: the failing predicate also reports done=true
+	Via     string `json:"via,omitempty"`     // update: hold | try | async
+	Peek    string `json:"peek,omitempty"`    // update: "" | before | after (take a wait channel inside the same section)
+	Pre     bool   `json:"pre,omitempty"`     // wait: context already cancelled
+	Pick    int    `json:"pick,omitempty"`
 }
 
 // Case is a generated history plus schedule.
@@ -43,7 +44,11 @@ func genCase(t *rapid.T) Case {
 		case "wait":
 			op.Ge = rapid.IntRange(0, 5).Draw(t, "ge")
 			if rapid.IntRange(0, 4).Draw(t, "haserr") == 0 {
-				op.ErrAt = rapid.IntRange(1, 4).Draw(t, "errat")
+				op.ErrAt = rapid.IntRange(0, 4).Draw(t, "errat")
+				op.ErrDone = rapid.Bool().Draw(t, "errdone")
+				if op.ErrAt == 0 {
+					op.ErrAt = -1 // fails at the initial state 0
+				}
 			}
 			op.Pre = rapid.IntRange(0, 11).Draw(t, "pre") == 0
 		case "update":
@@ -77,6 +82,14 @@ type handed struct {
 	ch  <-chan struct{}
 	gen int
 	who string
+}
+
+// errState maps the generated ErrAt to the state value at which the predicate fails (-1 means 0).
+func errState(e int) int {
+	if e < 0 {
+		return 0
+	}
+	return e
 }
 
 func closed(ch <-chan struct{}) bool {
@@ -149,7 +162,7 @@ func body(c *sched.Ctl, cs Case, v *ev.Verdict) {
 				fail("broadcast:cancelled-not-returned", "%s: Wait #%d whose context is cancelled is still blocked at full quiescence", where, w.id)
 				return
 			}
-			if state >= w.op.Ge || (w.op.ErrAt != 0 && state == w.op.ErrAt) {
+			if state >= w.op.Ge || (w.op.ErrAt != 0 && state == errState(w.op.ErrAt)) {
 				fail("broadcast:blocked-while-satisfied", "%s: Wait #%d (state>=%d, errAt=%d) is blocked at full quiescence although state=%d (predicate evaluated %d times)", where, w.id, w.op.Ge, w.op.ErrAt, state, w.evals)
 				return
 			}
@@ -178,9 +191,9 @@ func body(c *sched.Ctl, cs Case, v *ev.Verdict) {
 				err := b.Wait(ctx, func(broadcast func(), getWaitCh func() <-chan struct{}) (bool, error) {
 					w.evals++
 					w.lastTrue, w.lastErr = false, nil
-					if w.op.ErrAt != 0 && state == w.op.ErrAt {
+					if w.op.ErrAt != 0 && state == errState(w.op.ErrAt) {
 						w.lastErr = errFor(w.id)
-						return false, w.lastErr
+						return w.op.ErrDone, w.lastErr
 					}
 					w.lastTrue = state >= w.op.Ge
 					return w.lastTrue, nil
@@ -190,7 +203,9 @@ func body(c *sched.Ctl, cs Case, v *ev.Verdict) {
 				w.returned, w.err = true, err
 				switch {
 				case err == nil:
-					if !w.lastTrue {
+					if w.lastErr != nil {
+						fail("broadcast:error-swallowed", "Wait #%d returned nil although its predicate's last evaluation returned the error %v", w.id, w.lastErr)
+					} else if !w.lastTrue {
 						fail("broadcast:nil-without-true", "Wait #%d returned nil but its predicate's last evaluation did not return true (evaluations=%d)", w.id, w.evals)
 					}
 				case errors.Is(err, context.Canceled) && err == context.Canceled:
